@@ -42,6 +42,12 @@ func c20States() []c20State {
 		{"sparse-sealed", core.Cfg{Mode: core.S, Seg: 100}, kvOnly},
 		{"sparse-mmap", core.Cfg{Mode: core.S, RW: core.M, Start: core.M, Seg: 100}, kvOnly},
 		{"merged", core.Cfg{Mode: core.KV, Seg: 100}, append(append([]core.Op(nil), kvOnly...), core.Op{Kind: "merge"})},
+		// the same rotated states after a restart (what Open rebuilds differs from what the process
+		// that did the rotation holds)
+		{"key-only-rotated+reopened", core.Cfg{Mode: core.K, Seg: 100}, append(append([]core.Op(nil), kvOnly...), core.Op{Kind: "reopen"})},
+		{"sparse-sealed+reopened", core.Cfg{Mode: core.S, Seg: 100}, append(append([]core.Op(nil), kvOnly...), core.Op{Kind: "reopen"})},
+		{"sparse-mmap+reopened", core.Cfg{Mode: core.S, RW: core.M, Start: core.M, Seg: 100}, append(append([]core.Op(nil), kvOnly...), core.Op{Kind: "reopen"})},
+		{"merged+reopened", core.Cfg{Mode: core.KV, Seg: 100}, append(append([]core.Op(nil), kvOnly...), core.Op{Kind: "merge"}, core.Op{Kind: "reopen"})},
 	}
 }
 
@@ -429,7 +435,7 @@ func init() {
 		Register(c20Profile(tier, true))
 	})
 	Registry["C20"] = func(r *Run) {
-		r.Rule = "every Tx API x boundary grid (keys nil,'','|','a|b',present,absent; buckets '','|',present,absent; ints {MinInt64,-2..4,MaxInt64} in every position; scores NaN,+-Inf,-0,1e308; regexps '', '(', '\\\\'; empty variadic lists) as the only call of a write transaction (then Commit), of a read-only transaction, and on a finished transaction, in each of 12 prepared states (empty, populated, reopened, one structure only, emptied structures, key-only rotated, sparse with sealed segments FileIO/MMap, merged); every ordered pair (write call, representative of every write API) inside one transaction followed by Commit (thorough: triples for list/zset); DB-level API on degenerate Options, nil functions, closed databases, finished transactions. Oracle: no recovered panic, no hang. distinct = distinct result vectors"
+		r.Rule = "every Tx API x boundary grid (keys nil,'','|','a|b',present,absent; buckets '','|',present,absent; ints {MinInt64,-2..4,MaxInt64} in every position; scores NaN,+-Inf,-0,1e308; regexps '', '(', '\\\\'; empty variadic lists) as the only call of a write transaction (then Commit), of a read-only transaction, and on a finished transaction, in each of 16 prepared states (empty, populated, reopened, one structure only, emptied structures, key-only rotated, sparse with sealed segments FileIO/MMap, merged, and the last four after a restart); every ordered pair (write call, representative of every write API) inside one transaction followed by Commit (thorough: triples for list/zset); DB-level API on degenerate Options, nil functions, closed databases, finished transactions. Oracle: no recovered panic, no hang. distinct = distinct result vectors"
 		r.Assume = []string{"argument values outside the grid are not covered"}
 		r.Explore(c20Profile(r.Tier, false), "C20")
 		r.Explore(c20Profile(r.Tier, true), "C20")
